@@ -585,6 +585,7 @@ def check_C08(res):
     q = res.tier == "quick"
     server_stage(res, "mutate", 8 if q else 300, ["C08"])
     server_stage(res, "total", 4 if q else 100, ["C08"])
+    server_stage(res, "tsig", 2 if q else 40, ["C08"])     # TSIG records with a wrong class / TTL, malformed RDATA, not last
     return "well-formed requests mutated by truncation at every offset, appended junk, count changes, misplaced/duplicated OPT and TSIG, extra records in all sections, byte flips"
 
 
